@@ -787,4 +787,75 @@ func TestVerifC19Similarity(t *testing.T) {
 			r.Nontrivial("threshold:" + a + "~" + b)
 		}
 	}
+
+	// shapes of self reference (recursion through a method value, a method expression, a generic
+	// instantiation, defer/go, closures, ...): the function and a copy of it that differs only in
+	// its name have similarity exactly 1, entry by entry, and the file pair is reported as renames
+	idx = 0
+	for _, shp := range progfam.SelfShapes {
+		for ni, n2 := range progfam.SelfNames[1:] {
+			idx++
+			if !vh.Mine(idx) || (ni > 1 && !vh.Thorough()) {
+				continue
+			}
+			n1 := progfam.SelfNames[0]
+			d := filepath.Join(scratch, fmt.Sprintf("shape-%s-%d", shp.ID, ni))
+			os.MkdirAll(filepath.Join(d, "o"), 0o755)
+			os.MkdirAll(filepath.Join(d, "n"), 0o755)
+			op, np := filepath.Join(d, "o", "f.go"), filepath.Join(d, "n", "f.go")
+			so, sn := progfam.RenderShape(shp, n1), progfam.RenderShape(shp, n2)
+			os.WriteFile(op, []byte(so), 0o644)
+			os.WriteFile(np, []byte(sn), 0o644)
+			to, err1 := c05Topologies(op, so)
+			tn, err2 := c05Topologies(np, sn)
+			if err1 != nil || err2 != nil {
+				r.Fail("shape %s: %v %v", shp.ID, err1, err2)
+				return
+			}
+			r.Eval()
+			byKey := map[string]*topology.FunctionTopology{}
+			for short, tpn := range tn {
+				if k := progfam.ShapeEntryKey(short, n2); k != "" {
+					byKey[k] = tpn
+				}
+			}
+			var shorts []string
+			for short := range to {
+				shorts = append(shorts, short)
+			}
+			sort.Strings(shorts)
+			for _, short := range shorts {
+				k := progfam.ShapeEntryKey(short, n1)
+				if k == "" {
+					continue
+				}
+				other, ok := byKey[k]
+				if !ok {
+					continue // entry naming is C02's business
+				}
+				r.Nontrivial("shape:" + shp.ID + ":" + k + ":" + n2)
+				r.Count("renamed_copies_checked", 1)
+				if sim := topology.TopologySimilarity(to[short], other); sim != 1 {
+					r.Violate("similarity/renamed-copy/shape/"+shp.ID+"/"+k, fmt.Sprintf("shape %s: %s and its copy in which the function is called %s instead of %s have similarity %v, want exactly 1\ncalls old: %v\ncalls new: %v\n%s", shp.ID, short, n2, n1, sim, to[short].CallSignatures, other.CallSignatures, shp.Src), map[string]interface{}{"shape": shp.ID, "name": n2})
+				}
+			}
+			out, derr := ComputeDiff(RealFileSystem{}, op, np)
+			if derr != nil {
+				r.Fail("ComputeDiff shape %s: %v", shp.ID, derr)
+				return
+			}
+			var seen []string
+			for _, fd := range out.Functions {
+				seen = append(seen, fd.Function+":"+fd.Status)
+			}
+			if out.Summary.Added != 0 || out.Summary.Removed != 0 {
+				r.Violate("rename/shape/"+shp.ID, fmt.Sprintf("shape %s: the two files differ only in the name of the function (%s -> %s) but the diff reports %d added and %d removed functions: %v\n%s", shp.ID, n1, n2, out.Summary.Added, out.Summary.Removed, seen, shp.Src), map[string]interface{}{"shape": shp.ID, "name": n2})
+			}
+			for _, tm := range out.TopologyMatches {
+				if progfam.ShapeEntryKey(tm.OldFunction, n1) != "" && progfam.ShapeEntryKey(tm.OldFunction, n1) == progfam.ShapeEntryKey(tm.NewFunction, n2) && tm.Similarity != 1 {
+					r.Violate("similarity/reported/shape/"+shp.ID, fmt.Sprintf("shape %s: the diff pairs %s with %s and reports similarity %v, want exactly 1", shp.ID, tm.OldFunction, tm.NewFunction, tm.Similarity), map[string]interface{}{"shape": shp.ID, "name": n2})
+				}
+			}
+		}
+	}
 }
